@@ -326,7 +326,10 @@ def run_case(case, ctx):
     mode = case['mode']
     E.PAST_STYLE[0] = info['style']
     E.INT_DELAY_STYLE[0] = bool(info.get('int_delays'))
+    E.SPLIT_DELAY_STYLE[0] = info['style'] == 't-' and random.Random(case['cseed'] + 3).random() < 0.3
     mech = {}
+    if E.SPLIT_DELAY_STYLE[0]:
+        mech['difference_chain_delays'] = 1
     risk = []
     ref = RefModel(spec)
     if any(e['delay'] for e in ref.edges):
@@ -456,6 +459,7 @@ def run_case(case, ctx):
     finally:
         E.PAST_STYLE[0] = 'past'
         E.INT_DELAY_STYLE[0] = False
+        E.SPLIT_DELAY_STYLE[0] = False
     return res
 
 
